@@ -120,6 +120,15 @@ func RepoDir() string {
 	return "/repo"
 }
 
+// outDir is where a run writes evidence, replays and logs: verifDir unless VERIF_OUT is set
+// (evaluation of seeded faulty trees must not overwrite the evidence of the real tree).
+var outDir = func() string {
+	if d := os.Getenv("VERIF_OUT"); d != "" {
+		return d
+	}
+	return verifDir
+}()
+
 func envInt(k string, def int64) int64 {
 	if v := os.Getenv(k); v != "" {
 		if n, err := strconv.ParseInt(v, 10, 64); err == nil {
@@ -387,7 +396,7 @@ func runMain(args []string) int {
 	}
 	self, _ := os.Executable()
 	a := &agg{sigs: map[string]struct{}{}, obs: map[string]int{}}
-	logDir := filepath.Join(verifDir, ".build", w.prop, "logs")
+	logDir := filepath.Join(outDir, ".build", w.prop, "logs")
 	os.RemoveAll(logDir)
 	os.MkdirAll(logDir, 0o755)
 
@@ -475,12 +484,15 @@ loop:
 			fmt.Printf("KNOWN-FINDING: property=%s %s [%s] (%d occurrences this run)\n", k.Property, k.What, k.Signature, c)
 		}
 	}
-	replayRoot := filepath.Join(verifDir, "replays", p.ID)
+	replayRoot := filepath.Join(outDir, "replays", p.ID)
 	os.RemoveAll(replayRoot)
 	classesSeen := map[string]int{}
 	for _, av := range unknown {
 		classesSeen[av.v.Class]++
 		if classesSeen[av.v.Class] > 3 {
+			if os.Getenv("VERIF_TRIAGE") != "" { // development aid: one line per further violation
+				fmt.Printf("TRIAGE case=%d class=%s %s\n", av.idx, av.v.Class, strings.ReplaceAll(firstLines(av.v.Detail, 2), "\n", " | "))
+			}
 			continue
 		}
 		dir := filepath.Join(replayRoot, fmt.Sprintf("case%d-%s-%d", av.idx, sanitize(av.v.Class), classesSeen[av.v.Class]))
@@ -528,8 +540,8 @@ loop:
 		"violations":  len(unknown),
 	}
 	b, _ := json.MarshalIndent(ev, "", " ")
-	os.MkdirAll(filepath.Join(verifDir, "evidence"), 0o755)
-	if err := os.WriteFile(filepath.Join(verifDir, "evidence", p.ID+".json"), append(b, '\n'), 0o644); err != nil {
+	os.MkdirAll(filepath.Join(outDir, "evidence"), 0o755)
+	if err := os.WriteFile(filepath.Join(outDir, "evidence", p.ID+".json"), append(b, '\n'), 0o644); err != nil {
 		fmt.Fprintln(os.Stderr, "evidence:", err)
 	}
 	fmt.Printf("%s tier=%s seed=%d cases=%d/%d evaluations=%d distinct_nontrivial=%d inconclusive=%d violations=%d wall=%.1fs\n",
